@@ -622,6 +622,10 @@ func checkTypestate(w *World, r *Report, la *LockAnalysis) {
 		live := facts.Has("chk:live:" + exprStr(a.Base))
 		how, isReset := resets[a.Field]
 		switch {
+		case how != "nil" && !nonnil && !live && holdsInstancesOnly(a.Field) && !closedByIteration(w, a.Field):
+			// the singleton table: Close only deletes its entries (no nil map to panic on) and closes
+			// what it holds through the disposal list, whose own insertion site is checked
+			r.OK("R09.3", construct, a.Pos(), false, "Close never assigns nil to %s and does not dispose by iterating it: an insertion that overlaps Close cannot panic, and what the entry holds is tracked (and re-checked) in the disposal list", exprStr(a.Sel))
 		case live:
 			r.OK("R09.3", construct, a.Pos(), true, "disposed flag re-checked in the same critical section (Close sets it before touching the table)")
 		case nonnil && isReset && how == "nil":
@@ -691,6 +695,7 @@ func isDoneReceive(info *types.Info, e ast.Expr) bool {
 func anyDisposedTest(info *types.Info, cond ast.Expr) (base string, dead bool, ok bool) {
 	var flag *types.Var
 	var baseExpr ast.Expr
+	var viaParam types.Object
 	ast.Inspect(cond, func(n ast.Node) bool {
 		call, isC := n.(*ast.CallExpr)
 		if !isC {
@@ -705,6 +710,11 @@ func anyDisposedTest(info *types.Info, cond ast.Expr) (base string, dead bool, o
 				if fv := fieldOf(info, u.X); fv != nil {
 					flag, baseExpr = fv, selBase(u.X)
 				}
+			}
+			// atomic.LoadInt32(p): p a pointer parameter of a method to which every call site passes
+			// the address of the receiver's own flag (recv.list.add(&recv.disposed, d) after flattening)
+			if fv, rcv, po := flagPointerParam(info, call.Args[0]); fv != nil {
+				flag, baseExpr, viaParam = fv, rcv, po
 			}
 		} else if r, _, isM := methodCall(call); isM {
 			if fv := fieldOf(info, r); fv != nil {
@@ -736,8 +746,65 @@ func anyDisposedTest(info *types.Info, cond ast.Expr) (base string, dead bool, o
 		}
 		return "", false, false
 	}
+	saved := flagParam
+	if viaParam != nil {
+		flagParam = viaParam
+	}
 	d, ok := disposedTest(info, cond, flag)
+	flagParam = saved
 	return exprStr(baseExpr), d, ok
+}
+
+// flagPointerParam: e is a pointer parameter of the enclosing method, and every
+// call site of that method passes &X.f with X the very expression the method is
+// called on; returns f, the method's receiver identifier and the parameter.
+func flagPointerParam(info *types.Info, e ast.Expr) (*types.Var, ast.Expr, types.Object) {
+	w := theWorld
+	po, _ := objOf(info, e).(*types.Var)
+	if w == nil || po == nil {
+		return nil, nil, nil
+	}
+	fi := w.FuncAt(e.Pos())
+	if fi == nil || fi.Decl.Recv == nil || len(fi.Decl.Recv.List[0].Names) != 1 {
+		return nil, nil, nil
+	}
+	idx, k := -1, 0
+	for _, fl := range fi.Decl.Type.Params.List {
+		for _, nm := range fl.Names {
+			if info.Defs[nm] == po {
+				idx = k
+			}
+			k++
+		}
+	}
+	if idx < 0 {
+		return nil, nil, nil
+	}
+	var flag *types.Var
+	sites := 0
+	for caller := range w.Callers()[fi] {
+		cinfo := caller.Pkg.TypesInfo
+		for _, c := range callsIn(caller.Decl.Body, true) {
+			if callee(cinfo, c) != fi.Obj || idx >= len(c.Args) {
+				continue
+			}
+			sites++
+			u, isU := unparen(c.Args[idx]).(*ast.UnaryExpr)
+			rcv, _, isM := methodCall(c)
+			if !isU || u.Op != token.AND || !isM {
+				return nil, nil, nil
+			}
+			fv := plainFieldOf(cinfo, u.X)
+			if fv == nil || exprStr(selBase(u.X)) != exprStr(rcv) || (flag != nil && flag != fv) {
+				return nil, nil, nil
+			}
+			flag = fv
+		}
+	}
+	if sites == 0 || flag == nil {
+		return nil, nil, nil
+	}
+	return flag, fi.Decl.Recv.List[0].Names[0], po
 }
 
 // watcherOf recognises a watcher goroutine in either form
@@ -918,4 +985,32 @@ func holdsClosable(fv *types.Var) bool {
 		return check(t.Elem())
 	}
 	return false
+}
+
+// closedByIteration: one of the Close methods disposes the elements of this
+// table by ranging over it (or over a snapshot of it).
+func closedByIteration(w *World, fv *types.Var) bool {
+	for _, o := range []string{"scope", "provider"} {
+		fi := w.MustFn(w.Godi, "(*"+o+").Close")
+		for _, l := range analyseClose(w, fi, o).reachableLoops() {
+			if l.field == fv {
+				return true
+			}
+		}
+	}
+	return false
+}
+
+// holdsInstancesOnly: a map whose values are of type any and whose keys are not
+// scopes or disposables - a table of service instances (what it holds is closed
+// through the owner's disposal list, never by walking the table).
+func holdsInstancesOnly(fv *types.Var) bool {
+	m, ok := fv.Type().Underlying().(*types.Map)
+	if !ok {
+		return false
+	}
+	if b, ok := m.Elem().Underlying().(*types.Interface); !ok || b.NumMethods() != 0 {
+		return false
+	}
+	return !isNamedType(m.Key(), modPath, "scope") && !isNamedType(m.Key(), modPath, "Disposable") && !isNamedType(m.Key(), modPath, "Scope")
 }
